@@ -6,6 +6,7 @@ import z3
 
 from .core import *
 from . import lib
+from . import oslib  # noqa: F401  registers the OS / stdlib models
 
 
 class Frame:
@@ -36,6 +37,7 @@ class Interp:
         self.nopaths = 0
         self.hints = []
         self.lemmas_applied = set()
+        self._indexed = set()
 
     # ------------------------------------------------------------ obligations
 
@@ -129,6 +131,8 @@ class Interp:
         mi = self.modules.load(fr.modname)
         if name in mi.globals:
             return self.global_value(mi.globals[name], name)
+        if name == "__name__":
+            return StrV(fr.modname)
         if hasattr(builtins, name):
             return FunV("lib", name="builtins." + name)
         raise EngineError(f"unbound name {name} at {self.where(node)} in {fr.funcqual}")
@@ -204,7 +208,15 @@ class Interp:
         m = getattr(self, "s_" + type(node).__name__, None)
         if m is None:
             raise EngineError(f"unsupported statement {type(node).__name__} at {self.where(node)} in {st.frame.funcqual}")
-        return m(node, st)
+        outs = m(node, st)
+        pp = getattr(self, "pp_inv", None)
+        if pp is not None and not self.dry and outs and outs[0][0].frame.funcqual == self.verifying:
+            # crash / interruption points: the invariant must hold after every statement, on every edge
+            db, c, clause, pre_env = pp
+            for s2, ctl in outs:
+                g = db.eval_clause(self, s2, db.clause(c, clause), pre_env)
+                self.oblige(s2, g, "pp-inv", clause, self.where(node) + (":" + ctl[0] if ctl else ""), assume=False)
+        return outs
 
     def s_Expr(self, node, st):
         if isinstance(node.value, ast.Constant):
@@ -698,13 +710,32 @@ class Interp:
             self.oblige(st, g, "inv-entry", inv, wh, assume=False)
         # 2. havoc set by fixpoint (dry runs)
         hv_vars, hv_heap = {}, {}
+        self._ghost_changed = set()
         self.dry += 1
         try:
             for _round in range(6):
                 h = self.havoc(self.fork(st), hv_vars, hv_heap)
                 saved_pc = len(h.pc)
+                self.havoc_ghost(h, st, getattr(self, "_ghost_changed", set()))
+                # snapshot of the head state: states are updated in place along a path, so `h` itself may be one of the
+                # back-edge states afterwards
+                head = State()
+                head.env, head.heap = dict(h.env), dict(h.heap)
+                head.ghost = {"fs": dict(h.ghost.get("fs", {})), "net_calls": h.ghost.get("net_calls")}
                 exits, backs, others = self.loop_body_once(node, h, kind, info)
+                h = head
                 grew = False
+                for b in backs + [x[0] for x in exits] + [x[0] for x in others]:
+                    gc = getattr(self, "_ghost_changed", set())
+                    n0 = len(gc)
+                    if "net_calls" in b.ghost and b.ghost.get("net_calls") is not h.ghost.get("net_calls"):
+                        gc.add("net_calls")
+                    for k_, f_ in b.ghost.get("fs", {}).items():
+                        if h.ghost.get("fs", {}).get(k_) is not f_:
+                            gc.add(("fs", k_))
+                    self._ghost_changed = gc
+                    if len(gc) != n0:
+                        grew = True
                 for b in backs:
                     for name, v in b.env.items():
                         if name.startswith("__active") or name.startswith("__head") or name.startswith("__last"):
@@ -735,8 +766,11 @@ class Interp:
                 raise EngineError(f"havoc set of loop {wh} in {fq} does not stabilise")
         finally:
             self.dry -= 1
+        # ghost file system / network counter changed by the body: havoc them as well
+        ghost_changed = getattr(self, "_ghost_changed", set())
         # 3. arbitrary iteration
         h = self.havoc(st, hv_vars, hv_heap)
+        self.havoc_ghost(h, st, ghost_changed)
         for inv in invs:
             h.assume(self.specs.eval_invariant(self, contract, inv, h, node, info))
         if kind == "for":
@@ -766,6 +800,20 @@ class Interp:
             else:
                 res.append((s, None))
         return res
+
+    def havoc_ghost(self, h, st, changed):
+        from . import oslib
+        for item in changed:
+            if item == "net_calls":
+                n = z3.Int(fresh_name("net_calls"))
+                h.assume(n >= 0)
+                h.ghost["net_calls"] = n
+            elif isinstance(item, tuple) and item[0] == "fs":
+                kind = z3.Int(fresh_name("fkind"))
+                h.assume(z3.And(kind >= 0, kind <= 2))
+                h.ghost.setdefault("fs", {})
+                h.ghost["fs"] = dict(h.ghost["fs"])
+                h.ghost["fs"][item[1]] = oslib.FState(kind, z3.String(fresh_name("fcontent")))
 
     def havoc(self, st, hv_vars, hv_heap):
         for name, sh in hv_vars.items():
@@ -1147,7 +1195,6 @@ class Interp:
                 raise EngineError("break/continue outside loop")
         return res
 
-    _indexed = set()
 
     def instantiate(self, st, fv, pos, kws, node, opaque_kwargs=False):
         clsqual = fv.name
